@@ -88,6 +88,12 @@ def run(ctx):
     # the put's key (expired, not yet swept), it does so *before* admission runs - a dead entry still charged during
     # admission is counted as memory pressure and makes a put that fits evict live, unrelated keys
     retire_before_admission(ctx, "R03.7")
+    # ---- R03.9 (= C08 R08.1) "every read returns its latest acknowledged value": an upsert acknowledged as accepted has
+    # written the request's value into the entry - field by field, on every path of the entry's update (an early return
+    # taken for one combination of request fields leaves the old value readable behind an `Accepted`)
+    for o in ctx.own_of("c08"):
+        if o["rule"] == "R08.1":
+            ctx._add(o["status"], "R03.9", o["key"].split("|", 1)[1], o["desc"], o["where"], o["detail"])
     # ---- R03.6 the hooks remove by the key recorded with the released id ------------------------------------
     n_hooks = 0
     for name, f in F.fns.items():
